@@ -200,6 +200,18 @@ def replay_history(item):
                         probs.append((f"step{step}:frame", "index", -1, "index is not f", ""))
                     for c in sorted(cols & model_names):
                         probs += [(f"step{step}:frame", *p) for p in check_value(df[c].to_numpy(), case["exp"][c], case["bins"], c)]
+                elif kind == "plot":
+                    import matplotlib
+                    matplotlib.use("Agg", force=True)
+                    import matplotlib.pyplot as plt
+                    try:
+                        if name == "bode":
+                            if res.iscsd:
+                                res.plot("bode", errors=True, sigma=2, dB=(step % 2 == 0))
+                        else:
+                            res.plot("coh" if res.iscsd else "asd", errors=True, sigma=3)
+                    finally:
+                        plt.close("all")
                 elif kind == "copy":
                     res = copy.copy(res)
                 elif kind == "deepcopy":
